@@ -16,7 +16,7 @@ from .refasm import LE, LT, GE, EQ, AND, OR, ITE
 from . import c02
 
 ID = 'C16'
-BUDGET_S = {'quick': 170, 'thorough': 1800}
+BUDGET_S = {'quick': 170, 'thorough': 3600}
 SHAPE_WALL_S = {'quick': 100, 'thorough': 600}
 FAMILY = ('PIPE with pretty printing: seeded programs (sparse maps via .org, lines longer than 6 bytes, an included file, muted '
           'regions, zero-length lines, labels, constants) x formats {listing, minhex, hex, intel_hex} x address widths '
